@@ -19,7 +19,8 @@ MANIFEST = {
          "shutdown, try_write refusal, descriptor count, liveness after the OS accepts everything).",
  "note": "Trusted: Lean kernel; the interposition harness (write/writev/sendmsg/shutdown defined in the harness, partial "
          "writes performed for real so the peer sees them); clang/ASan. Not modelled: UV_HANDLE_BLOCKING_WRITES (tty only), "
-         "read side, a closing send_handle, ENOMEM in uv_write2 (C16), macOS. POLLOUT is assumed deliverable whenever armed "
+         "read side, a closing send_handle, macOS. Refused vector allocation in uv_write2 (>4 buffers) is a scripted input "
+         "(uv_replace_allocator); loop->active_reqs.count is checked against the requests owed a callback. POLLOUT is assumed deliverable whenever armed "
          "(small payloads on an empty socket buffer).",
  "design": "DESIGN.md §3 C05",
  "technique": "Lean 4 proof over executable model + correspondence (unit include + whole-library syscall interposition) + monitors",
@@ -54,7 +55,7 @@ def gen_bufs(rng, big_ok):
     if r < 6:   # data followed by a run of empty buffers (request stays queued with 0 bytes left)
         head = [str(rng.choice([1, 2, 3, 5])) for _ in range(rng.range(1, 2))]
         return ",".join(head + ["0"] * rng.range(2, 4))
-    n = rng.range(1, 5)
+    n = rng.choice([1, 2, 3, 4, 5, 5, 6, 9])     # > 4 buffers: uv_write2 heap-allocates the vector
     return ",".join(str(rng.choice([0, 1, 1, 2, 3, 4, 7])) for _ in range(n))
 
 
@@ -87,7 +88,8 @@ def gen_op(rng, ipc, in_script, big_ok, bias=None):
     if r < 9:
         b = gen_bufs(rng, big_ok)
         h = "h" if (ipc and (rng.chance(1, 3) or "x" in b)) or rng.chance(1, 25) else ""
-        return f"w{h}{':' if in_script else ' '}{b}"
+        m = "m" if rng.chance(1, 6) else ""          # the allocator refuses the next uv__malloc during this call
+        return f"w{m}{h}{':' if in_script else ' '}{b}"
     if r < 13:
         h = "h" if (ipc and rng.chance(1, 3)) or rng.chance(1, 25) else ""
         return f"t{h}{':' if in_script else ' '}{gen_bufs(rng, False)}"
@@ -175,11 +177,16 @@ def monitor(case, out):
         if not o.startswith("obs wqs="):
             raise Bad("log-shape", f"expected obs, got `{o}`")
         wqs = int(o.split("=")[1])
+        nomem = op in ("wm", "wmh")
+        if nomem:
+            op = "w" + op[2:]
         if op in ("w", "wh", "t", "th"):
             sid = st["nextid"]; st["nextid"] += 1
             lens = expand(opw[1]); total = sum(lens)
             if op in ("t", "th"):
-                tries.append((t0, rc, len(sys_lines), st["connecting"]))
+                eagain_sys = any(int(sl.split()[4]) in (-11, -105) for sl in sys_lines)
+                tries.append((t0, rc, len(sys_lines), st["connecting"], eagain_sys,
+                              st["closed_api"] or st["shutdown_ok_at"] is not None))
                 if rc > total:
                     raise Bad("try-write-ret", f"uv_try_write returned {rc} > {total}")
             for sl in sys_lines:
@@ -194,6 +201,12 @@ def monitor(case, out):
                 raise Bad("write-after-shutdown", f"uv_try_write after uv_shutdown returned {rc}")
             if st["closed_api"] and rc >= 0:
                 raise Bad("write-after-close", f"write on a closing handle returned {rc}")
+            if rc == -12 and not (nomem and len(lens) > 4):
+                raise Bad("enomem-unasked", f"uv_write returned UV_ENOMEM although no allocation was refused ({len(lens)} buffers)")
+            if nomem and len(lens) > 4 and rc not in (-12, -9, -32, -22):
+                raise Bad("enomem-ignored", f"uv_write with {len(lens)} buffers returned {rc} although the vector allocation was refused")
+            if op in ("w", "wh") and rc < 0 and sys_lines:
+                raise Bad("refused-write-made-syscalls", f"uv_write returned {rc} but made {len(sys_lines)} write syscalls")
             if (op == "wh" and rc == 0) or (op == "th" and rc > 0):
                 st["handle_subs"] = st.get("handle_subs", 0) + 1
             if op in ("w", "wh") and rc == 0:
@@ -333,6 +346,13 @@ def monitor(case, out):
     nh = st.get("handle_subs", 0)
     if nfds > nh:
         raise Bad("send-handle-resent", f"peer received {nfds} descriptors for {nh} successful uv_write2/uv_try_write2 calls with a handle")
+    nreqs = next((int(l.split()[1]) for l in out if l.startswith("#reqs ")), None)
+    if nreqs is not None:
+        owed = sum(1 for s in subs if s["kind"] == "w" and s["cbstatus"] is None)
+        owed += 1 if (st["shutdown_ok_at"] is not None and not st["shutcb"]) else 0
+        owed += 1 if st["connecting"] else 0
+        if nreqs != owed:
+            raise Bad("active-reqs-count", f"loop->active_reqs.count = {nreqs} but {owed} requests are owed a callback (a refused or completed request still counts as active, or the reverse)")
     if st["shutsys_ok"] and not eof:
         raise Bad("eof-missing", "shutdown(2) succeeded but the peer saw no EOF")
     if eof and not (st["shutsys_ok"] or st["closed_api"]):
@@ -343,10 +363,12 @@ def monitor(case, out):
         acc = sum(n for (ta, n, tr) in sysacc if ta < t and not tr)
         done = sum(s["sent"] for s in subs if s["kind"] == "w" and s["cbtime"] is not None and s["cbtime"] < t)
         return sum(s["total"] for s in outstanding) - (acc - done)
-    for (t0, rc, nsys, conn) in tries:
+    for (t0, rc, nsys, conn, eagain_sys, dead) in tries:
         q = unsent_at(t0)
         if (q > 0 or conn) and (rc != -11 or nsys):
             raise Bad("try-write-overtakes", f"uv_try_write with {q} queued unsent bytes (connecting={conn}) returned {rc} and made {nsys} syscalls")
+        if q == 0 and not conn and not dead and rc == -11 and not eagain_sys:
+            raise Bad("try-write-spurious-eagain", "uv_try_write returned UV_EAGAIN on an idle stream (nothing queued, not connecting) without the OS refusing anything")
     for (t, wqs) in obs_points:
         exp = unsent_at(t)
         if wqs != exp:
@@ -487,7 +509,7 @@ def run(ctx):
                     "partial writes performed with the real syscall", "clang/ASan/UBSan",
                     "byte identity: payload byte = f(call number, offset) (251-periodic pattern)"]
     ctx.assumptions += ["POLLOUT is delivered by epoll whenever the watcher is armed (socket buffers never fill: payloads are small)",
-                        "UV_HANDLE_BLOCKING_WRITES is not set (tty only); the send_handle is not closing; uv__malloc succeeds"]
+                        "UV_HANDLE_BLOCKING_WRITES is not set (tty only); the send_handle is not closing"]
     ctx.require_lean(["UvModel.Props.C05"])
     uexe = ctx.harness("c05_requpdate", ["harness/c05_requpdate.c"], link_lib=True)
     sexe = ctx.harness("c05_sim", ["harness/c05_sim.c"], link_lib=True)
